@@ -73,9 +73,10 @@ func isConsecutive(offs []int) bool {
 func relevant(prop, family string) bool {
 	switch prop {
 	case "C01":
-		return family == "view"
+		return family == "view" || family == "write"
 	case "C02":
-		return family == "bulk"
+		// Apply, ApplySlice and CopyFrom have contiguous fast paths: both properties name them
+		return family == "bulk" || family == "write"
 	case "C03":
 		return family == "cdiff"
 	}
@@ -165,18 +166,22 @@ func arraysRun[T num, A arr[T, A]](k kit[T, A], rc *RunCtx, o *Outcome) {
 	}
 
 	// whole-store comparison: exact footprints on both back-ends, canaries intact
-	checkStores := func(after string) {
+	checkStores := func(after string, fam ...string) {
+		family := "view"
+		if len(fam) > 0 {
+			family = fam[0]
+		}
 		for ri, r := range roots {
 			for i, e := range r.store {
 				if float64(r.goBuf[i]) != e {
-					x.fail("view", "storage-differs", "go/storage", "after %s: Go-backed storage of root %d element %d is %v, the reference has %v (a write touched the wrong element)", after, ri, i, r.goBuf[i], e)
+					x.fail(family, "storage-differs", "go/storage", "after %s: Go-backed storage of root %d element %d is %v, the reference has %v (a write touched the wrong element)", after, ri, i, r.goBuf[i], e)
 					return
 				}
 				if k.cGet(r.cb, i) != e {
 					if float64(r.goBuf[i]) == e {
 						x.fail("cdiff", "c-storage-differs", "c/storage", "after %s: C buffer of root %d element %d is %v, the Go-backed array and the reference have %v", after, ri, i, k.cGet(r.cb, i), e)
 					} else {
-						x.fail("view", "storage-differs", "c/storage", "after %s: C buffer of root %d element %d is %v, reference %v", after, ri, i, k.cGet(r.cb, i), e)
+						x.fail(family, "storage-differs", "c/storage", "after %s: C buffer of root %d element %d is %v, reference %v", after, ri, i, k.cGet(r.cb, i), e)
 					}
 					return
 				}
@@ -384,11 +389,11 @@ func arraysRun[T num, A arr[T, A]](k kit[T, A], rc *RunCtx, o *Outcome) {
 				}
 				what = fmt.Sprintf("%s.Apply1(%d,%d,%d values)", rv.how, l, st, cnt)
 				x.log = append(x.log, what)
-				both(what, "view", v, func(a A) {
+				both(what, "write", v, func(a A) {
 					any(a).(interface{ Apply1(int, int, []T) }).Apply1(l, st, append([]T(nil), vals...))
 				})
 				if !x.aborted {
-					checkStores(what)
+					checkStores(what, "write")
 				}
 				o.probe("ND1_accessors")
 			case 2:
@@ -457,15 +462,15 @@ func arraysRun[T num, A arr[T, A]](k kit[T, A], rc *RunCtx, o *Outcome) {
 			what := fmt.Sprintf("%s.Apply(%v,dim %d,step %d,%d values)", rv.how, loc, dim, st, cnt)
 			x.log = append(x.log, what)
 			locBefore := append([]int(nil), loc...)
-			both(what, "view", v, func(a A) {
+			both(what, "write", v, func(a A) {
 				l2 := append([]int(nil), loc...)
 				a.Apply(l2, dim, st, append([]T(nil), vals...))
 				if !eqInts(l2, locBefore) {
-					x.fail("view", "loc-not-restored", "apply/loc", "%s left the caller's position vector changed: %v", what, l2)
+					x.fail("write", "loc-not-restored", "apply/loc", "%s left the caller's position vector changed: %v", what, l2)
 				}
 			})
 			if !x.aborted {
-				checkStores(what)
+				checkStores(what, "write")
 			}
 			if rv.stepped {
 				o.probe("apply_on_stepped_view")
@@ -519,7 +524,7 @@ func arraysRun[T num, A arr[T, A]](k kit[T, A], rc *RunCtx, o *Outcome) {
 				what = fmt.Sprintf("%s.ApplySlice(%v,%v,%s source %v)", rv.how, loc, stepArg, layoutNames[layout], sub)
 			}
 			x.log = append(x.log, what)
-			both(what, "view", v, func(a A) {
+			both(what, "write", v, func(a A) {
 				src := srcG
 				if any(a) != any(v.g) {
 					src = srcC
@@ -531,7 +536,7 @@ func arraysRun[T num, A arr[T, A]](k kit[T, A], rc *RunCtx, o *Outcome) {
 				}
 			})
 			if !x.aborted {
-				checkStores(what)
+				checkStores(what, "write")
 			}
 			if isConsecutive(rv.offs) && !copyFrom {
 				o.probe("applyslice_into_contiguous_view")
